@@ -93,7 +93,8 @@ def gen_elem(rng, scope: dict, depth: int, budget: list, root=False):
     scope = dict(scope)
     if root or rng.random() < 0.25:
         for p in rng.sample(sorted(URIS), rng.randint(0, 3 if root else 1)):
-            decls[p] = URIS[p]
+            # below the root a prefix is sometimes re-bound to another namespace
+            decls[p] = URIS[p] if root or rng.random() < 0.5 else rng.choice(['urn:q', 'urn:p', 'urn:z'])
         if rng.random() < (0.5 if root else 0.25):
             d = rng.choice(DEFAULTS)
             if d or scope.get(''):
@@ -153,7 +154,7 @@ def gen_case(rng, quick=True):
         ns = rng.choice([{}, {'p': 'urn:p'}, {'p': 'urn:p', 'q': 'urn:q', '': 'urn:d'}, {'': 'urn:p', 'k': 'urn:k'}])
     else:
         ns = None
-    return {'doc': d, 'lib': lib, 'form': form, 'frag': frag, 'ns': ns, 'pns': rng.random() < 0.5,
+    return {'doc': d, 'lib': lib, 'form': form, 'frag': frag, 'ns': ns, 'pns': rng.choice([0, 1, 1, 2, 3]),
             'v31': rng.random() < 0.5}
 
 
@@ -260,7 +261,7 @@ def request_line(case):
             model_tokens(k, case['lib'], case['ns'], toks, kinds)
     else:
         model_tokens(root, case['lib'], case['ns'], toks, kinds)
-    line = f"root={'doc' if is_doc else 'elem'} tree={','.join(toks)}"
+    line = f"root={'doc' if is_doc else ('frag' if case['frag'] else 'elem')} tree={','.join(toks)}"
     return line, kinds, (xml, obj, root, is_doc)
 
 
@@ -340,7 +341,15 @@ def run_impl_inner(case, parsed):
         pns = {(k or ''): v for k, v in root.nsmap.items()}
     else:
         pns = dict(case['ns'] or {})
-    pns = pns if case['pns'] else {}
+    # namespaces= of the parser that reads the path back: 0 none, 1 the document's, 2 hostile (another default
+    # namespace, the document's prefixes bound to other URIs), 3 the document's URIs under other prefixes
+    mode = int(case['pns'])
+    if mode == 0:
+        pns = {}
+    elif mode == 2:
+        pns = dict({k: 'urn:hostile:' + (k or 'default') for k in pns if k != 'xml'}, **{'': 'urn:other-default'})
+    elif mode == 3:
+        pns = {f'zz{i}': v for i, (k, v) in enumerate(sorted(pns.items())) if v and k != 'xml'}
     P1, P2 = (XPath31Parser, XPath30Parser) if case['v31'] else (XPath30Parser, XPath31Parser)
 
     def idx(item) -> str:
@@ -359,10 +368,10 @@ def run_impl_inner(case, parsed):
         except Exception as e:
             return err_text(e)
 
-    def fnpath(P, n) -> str:
+    def fnpath(P, n, expr='path(.)') -> str:
         try:
             ctx = XPathContext(tree, item=n, fragment=frag)
-            out = list(P(namespaces=pns).parse('path(.)').select(ctx))
+            out = list(P(namespaces=pns).parse(expr).select(ctx))
             if len(out) == 1 and isinstance(out[0], str):
                 return out[0]
             return 'NOT-ONE-STRING:' + repr(out)[:60]
@@ -377,12 +386,62 @@ def run_impl_inner(case, parsed):
         except Exception as e:
             p = err_text(e)
         fp = fnpath(P1, n)
-        fp2 = fnpath(P2, n)
+        fp2 = fnpath(P2, n, 'path()')          # context item form, the other parser version
         if fp != fp2:
-            res['problems'].append(f'fn:path differs between 3.0 and 3.1 parser: {fp!r} {fp2!r}')
-        sel = 'n/a' if frag else evaluate(P1, p)
+            res['problems'].append(f'path(.) with one 3.x parser and path() with the other differ: {fp!r} {fp2!r}')
+        sel = evaluate(P1, p)
         selfn = evaluate(P2, fp) if not fp.startswith(('ERR', 'NOT-')) else fp
         res['recs'].append((p, fp, sel, selfn))
+        try:
+            if n.path != p:                    # second read on the same object, after it has been evaluated
+                res['problems'].append(f'node.path changed between two reads: {p!r} {n.path!r}')
+        except Exception as e:
+            res['problems'].append('second read of node.path: ' + err_text(e))
+    # fn:path on the empty sequence and on a node of another tree is the empty sequence (F&O 14.6 / evaluate__path)
+    try:
+        for expr, item in (('path(())', None), ('path(.)', 'foreign')):
+            if item == 'foreign':
+                item = get_node_tree(obj, namespaces=case['ns'], fragment=frag)
+            out = list(P1(namespaces=pns).parse(expr).select(XPathContext(tree, item=item, fragment=frag)))
+            if out != []:
+                res['problems'].append(f'{expr} on {"a node of another tree" if item is not None else "()"} gave {out!r:.60}')
+    except Exception as e:
+        res['problems'].append('fn:path empty cases: ' + err_text(e))
+    # the same tree iterated without building lazy components must be the same node sequence
+    try:
+        if [id(x) for x in tree.iter_lazy()] != [id(x) for x in nodes]:
+            res['problems'].append('iter_lazy() differs from iter() after a full build')
+    except Exception as e:
+        res['problems'].append('iter_lazy:' + err_text(e))
+    # a lazily built tree (LazyElementNode): same paths, each selecting its node
+    res['lazy'] = None
+    if not is_doc and not frag and (case['lib'] == 'lxml' or not case['ns']):
+        try:
+            from elementpath import LazyElementNode
+            from elementpath.xpath_nodes import ElementNode
+
+            def walk(n):
+                yield n
+                if isinstance(n, ElementNode):
+                    yield from n.namespace_nodes
+                    yield from n.attributes
+                    for c in n:
+                        yield from walk(c)
+            lazy = LazyElementNode(root)
+            lnodes = list(walk(lazy))
+            lidx = {id(n): i for i, n in enumerate(lnodes)}
+            out = []
+            for n in lnodes:
+                p = n.path
+                try:
+                    r = [str(lidx.get(id(x), 'X')) for x in P1(namespaces=pns).parse(p).select(XPathContext(lazy))]
+                    out.append((p, ','.join(r) if r else '-'))
+                except Exception as e:
+                    out.append((p, err_text(e)))
+            res['lazy'] = out
+            res['lazy_kinds'] = [node_kind(n) for n in lnodes]
+        except Exception as e:
+            res['problems'].append('lazy:' + err_text(e))
     # etree_iter_paths on the root element
     try:
         rnode = tree if not isinstance(tree, DocumentNode) else tree.getroot()
@@ -394,6 +453,19 @@ def run_impl_inner(case, parsed):
         for e, path in etree_iter_paths(root):
             i = elem_index.get(id(e))
             res['etree'].append((str(i) if i is not None else 'X', path, evaluate(P1, path, item=rnode)))
+        # the other two forms of the `path` argument: '' (relative, no './') and '/' (the element stands for
+        # the root of the tree: what a leading '/' means in a fragment context)
+        res['etree_rel'] = [(str(elem_index.get(id(e), 'X')), path, evaluate(P2, path, item=rnode) if path else '')
+                            for e, path in etree_iter_paths(root, '')]
+        if not is_doc:
+            def eval_frag(expr):
+                try:
+                    out = [idx(x) for x in P2(namespaces=pns).parse(expr).select(XPathContext(tree, fragment=True))]
+                    return ','.join(out) if out else '-'
+                except Exception as e:
+                    return err_text(e)
+            res['etree_abs'] = [(str(elem_index.get(id(e), 'X')), path, eval_frag(path) if path != '/' else '')
+                                for e, path in etree_iter_paths(root, '/')]
     except Exception as e:
         res['problems'].append('etree_iter_paths:' + err_text(e))
     return res
@@ -500,7 +572,7 @@ def parse_answer(ans: str):
         f[k] = v
     def recs(s):
         return [] if s == '-' else [tuple(r.split(';')) for r in s.split('|')]
-    return recs(f['model']), recs(f['spec']), recs(f['etree']), recs(f['especs']), f.get('wf')
+    return recs(f['model']), recs(f['spec']), recs(f['etree']), recs(f['especs']), f.get('wf'), recs(f['evariants'])
 
 
 def compare(run: Run, cases: list, count=True) -> None:
@@ -520,7 +592,7 @@ def compare(run: Run, cases: list, count=True) -> None:
         if ans.startswith('bad-'):
             run.disagree(Disagreement(base, 'driver:' + ans, what='protocol'))
             continue
-        mrecs, srecs, metree, setree, wf = parse_answer(ans)
+        mrecs, srecs, metree, setree, wf, evariants = parse_answer(ans)
         impl = run_impl(case, parsed)
         frag = case['frag']
         if wf != '1':
@@ -531,20 +603,20 @@ def compare(run: Run, cases: list, count=True) -> None:
         if impl['problems'] and not impl['kinds']:
             continue
         if impl['kinds'] != kinds:
-            run.disagree(Disagreement(base, json.dumps(impl['kinds'], default=str)[:400],
-                                      json.dumps(kinds, default=str)[:400], what='tree-shape',
-                                      site='tree_builders'))
+            run.disagree(Disagreement(base, json.dumps(impl['kinds'], default=str)[:600], None,
+                                      spec=json.dumps(kinds, default=str)[:600], what='tree-shape',
+                                      site='tree_builders (node sequence of tree.iter() vs. the parsed input)'))
             continue
         if len(mrecs) != len(kinds) or len(srecs) != len(kinds):
             run.disagree(Disagreement(base, f'{len(kinds)} nodes', f'{len(mrecs)} records', what='protocol'))
             continue
         sibs = sibling_map(line)
+        is_fragment = bool(frag) and not parsed[3]
         positions_gt1 = 0
         for k, (irec, mrec, srec) in enumerate(zip(impl['recs'], mrecs, srecs)):
-            if frag:
-                mrec = (mrec[0], mrec[1], 'n/a', mrec[3])
-                srec = (srec[0], srec[1], 'n/a', srec[3])
-            i_s, m_s, s_s = ';'.join(irec), ';'.join(mrec), ';'.join(srec)
+            # fields: 0 node.path, 1 fn:path, 2 nodes selected by node.path, 3 nodes selected by fn:path
+            pick = lambda r: ';'.join((r[0], r[1], r[3]))
+            i_s, m_s, s_s = pick(irec), pick(mrec), pick(srec)
             if count:
                 st.count('node:' + kinds[k][0])
                 if irec[0].endswith(']') and not irec[0].endswith('[1]') and kinds[k][0] not in ('ns',):
@@ -552,13 +624,25 @@ def compare(run: Run, cases: list, count=True) -> None:
                     st.count('position>1:' + kinds[k][0])
                 if kinds[k][0] == 'pi' and reserved_target(kinds[k][1]):
                     st.count('pi-target-is-parser-keyword')
-            if m_s != s_s:
+            if ';'.join(mrec) != ';'.join(srec) and not is_fragment:
                 run.broken.append(f'model-vs-spec:{line[:120]} node {k}')
+            c = dict(base, node=k, node_kind=list(kinds[k]))
             if i_s != s_s or i_s != m_s:
-                tags = triggers(kinds, sibs, k, case)
-                c = dict(base, node=k, node_kind=list(kinds[k]))
-                run.disagree(Disagreement(c, i_s, m_s, spec=s_s, what='node-path', tags=tags,
+                run.disagree(Disagreement(c, i_s, m_s, spec=s_s, what='node-path', tags=triggers(kinds, sibs, k, case),
                                           site='xpath_nodes.path / get_child_position / fn:path'))
+            # the absolute node.path evaluated back
+            if irec[2] != srec[2]:
+                tags = triggers(kinds, sibs, k, case)
+                if is_fragment:
+                    tags.append('F14f')   # trigger: evaluated with fragment=True on a tree without document node
+                    st.count('F14f:abs-path-in-fragment')
+                run.disagree(Disagreement(c, f'{irec[0]} selects {irec[2]}', f'{mrec[0]} selects {mrec[2]}',
+                                          spec=f'{srec[0]} selects {srec[2]}', what='node-path-evaluated', tags=tags,
+                                          site='xpath_nodes.path evaluated by _xpath1_operators.select__child_path'))
+            if irec[2] != mrec[2] and (is_fragment or irec[2] == srec[2]):
+                # the model of the evaluation (incl. the model of F14f) no longer mirrors the code
+                run.disagree(Disagreement(c, f'{irec[0]} selects {irec[2]}', f'{mrec[0]} selects {mrec[2]}',
+                                          what='abs-path-evaluation-model'))
         # pairwise distinct strings
         for col, nm in ((0, 'node.path'), (1, 'fn:path')):
             seen = {}
@@ -586,10 +670,42 @@ def compare(run: Run, cases: list, count=True) -> None:
                     tags = [t for t in (triggers(kinds, sibs, int(k), case) if k.isdigit() else []) if t == 'F14b']
                     run.disagree(Disagreement(dict(base, node=k), a, b, spec=c, what='etree_iter_paths', tags=tags,
                                               site='etree.etree_iter_paths'))
+        for key, lead in (('etree_rel', ''), ('etree_abs', '/')):
+            if impl.get(key) is None:
+                continue
+            # expected strings come from the driver (prescribed steps rendered with path='' / path='/')
+            col = 1 if lead == '' else 2
+            exp = [(r[0], r[col], '' if r[col] == lead else r[0]) for r in evariants]
+            got = [tuple(r) for r in impl[key]]
+            if got != exp:
+                bad = next((i for i, (a, b) in enumerate(zip(got, exp)) if a != b), min(len(got), len(exp)))
+                k = exp[bad][0] if bad < len(exp) else '?'
+                tags = [t for t in (triggers(kinds, sibs, int(k), case) if k.isdigit() else []) if t == 'F14b']
+                if k.isdigit() and kinds[int(k)][0] in ('comment', 'pi') and sibs[1].get(int(k)) == int(exp[0][0]):
+                    tags.append('F14g')    # trigger: path argument '' or '/', comment / PI child of the element
+                run.disagree(Disagreement(dict(base, node=k, path_argument=lead), ';'.join(got[bad]) if bad < len(got) else 'missing',
+                                          None, spec=';'.join(exp[bad]) if bad < len(exp) else 'nothing', tags=tags,
+                                          what=f'etree_iter_paths(path={lead!r})', site='etree.etree_iter_paths'))
+            elif count:
+                st.count(f'etree-paths(path={lead!r})', len(got))
+        if impl.get('lazy') is not None:
+            if impl['lazy_kinds'] != kinds:
+                run.disagree(Disagreement(dict(base, lazy=True), json.dumps(impl['lazy_kinds'], default=str)[:600], None,
+                                          spec=json.dumps(kinds, default=str)[:600], what='lazy-tree-shape',
+                                          site='LazyElementNode.__iter__ (node sequence vs. the parsed input)'))
+            else:
+                for k, ((lp, lsel), srec) in enumerate(zip(impl['lazy'], srecs)):
+                    if (lp, lsel) != (srec[0], srec[2]):
+                        run.disagree(Disagreement(dict(base, node=k, lazy=True), f'{lp} selects {lsel}', None,
+                                                  spec=f'{srec[0]} selects {srec[2]}', what='lazy-node-path',
+                                                  tags=triggers(kinds, sibs, k, case), site='LazyElementNode / path'))
+                if count:
+                    st.count('lazy-tree-nodes', len(kinds))
         if count:
             st.case({'xml': xml, 'lib': case['lib'], 'form': case['form'], 'frag': case['frag']},
                     nontrivial=positions_gt1 > 0, sample_every=89)
             st.count(f"form:{case['lib']}/{case['form']}/frag={case['frag']}")
+            st.count(f"parser-namespaces-mode:{int(case['pns'])}")
             st.count('root:' + ('document' if parsed[3] else 'element'))
             st.count(f'nodes={min(len(kinds), 60) // 10 * 10}+')
             st.count('etree-paths', len(ie))
@@ -658,12 +774,23 @@ def corpus():
                     decls={'p': 'urn:p', 'p2': 'urn:p'}), 'lxml', 'doc', None, None,
                   pre=[['c', 'c'], P('top', 'a')], post=[P('top', 'b'), ['c', '']], pns=True))
     out.append(mk(E('r', [['t', 'a'], ['c', ''], ['t', 'b'], ['c', ''], ['t', 'c']]), 'et', 'elem', True, {}))
+    # F14f witness: absolute node.path inside a fragment selects another node
+    for lib, ns in (('et', {}), ('lxml', None)):
+        out.append(mk(E('r', [E('r', [E('a')]), E('a')]), lib, 'elem', True, ns))
+    # prefix re-bound at depth, same URI under two prefixes, default namespace switched on and off; hostile parser namespaces
+    reb = E('r', [E('a', pfx='p'), E('x', [E('a', pfx='p'), E('a', pfx='q'), E('a', [E('a', decls={'': ''}), E('a')],
+                                                                         decls={'': 'urn:q'})],
+                                  decls={'p': 'urn:q'}), E('a', pfx='q')],
+            decls={'p': 'urn:p', 'q': 'urn:q', '': 'urn:p'}, attrs=[('p', 'k'), ('q', 'k'), ('', 'k')])
+    for pns in (0, 1, 2, 3):
+        out.append(mk(reb, 'lxml', 'doc', None, None, pns=pns))
+        out.append(mk(reb, 'et', 'elem', None, {'p': 'urn:p', '': 'urn:q'}, pns=pns, v31=True))
     return out
 
 
 def correspond(run: Run) -> None:
     rng = run.rng
-    n = run.scale(2500, 30000)
+    n = run.scale(1500, 24000)
     cases = corpus() + [gen_case(rng, run.quick) for _ in range(n)]
     run.stats.rule = (
         'random XML documents (<= ~25 content nodes + namespace/attribute nodes, depth <= 3; element names from 4 locals x '
@@ -673,8 +800,8 @@ def correspond(run: Run) -> None:
         'None/True/False) x parser namespaces on/off x 3.0/3.1 parser order. Every node of every tree is evaluated. '
         'distinct_nontrivial = distinct (xml, lib, form, fragment) cases in which at least one generated step has a position > 1')
     orphan_checks(run)
-    for i in range(0, len(cases), 500):
-        compare(run, cases[i:i + 500])
+    for i in range(0, len(cases), 4000):      # few driver calls: `lake env` may wait for other builds
+        compare(run, cases[i:i + 4000])
 
 
 # --------------------------------------------------------------------------------------
